@@ -56,8 +56,9 @@ Definition dec_instr (s : sexp) : option instr :=
       | Some r, Some o, Some c, Some i => Some (IUpdate r o c i) | _, _, _, _ => None end
   | SL [SA "del"; r; p] => match dec_nat r, dec_path p with Some r, Some p => Some (IDel r p) | _, _ => None end
   | SL [SA "lock"; r; b] => match dec_nat r, dec_bool b with Some r, Some b => Some (ILock r b) | _, _ => None end
-  | SL [SA "view"; r; nb; b] =>
-      match dec_nat r, dec_nat nb, dec_list dec_nat b with Some r, Some nb, Some b => Some (IViewB r nb b) | _, _, _ => None end
+  | SL [SA "view"; r; nb; b; pl] =>
+      match dec_nat r, dec_nat nb, dec_list dec_nat b, dec_bool pl with
+      | Some r, Some nb, Some b, Some pl => Some (IViewB r nb b pl) | _, _, _, _ => None end
   | SL [SA "select"; r; ks] => match dec_nat r, dec_list dec_str ks with Some r, Some ks => Some (ISelect r ks) | _, _ => None end
   | SL [SA "exclude"; r; ks] => match dec_nat r, dec_list dec_str ks with Some r, Some ks => Some (IExclude r ks) | _, _ => None end
   | SL [SA "shallow"; r] => option_map IShallow (dec_nat r)
@@ -65,7 +66,9 @@ Definition dec_instr (s : sexp) : option instr :=
   | SL [SA "clone"; r] => option_map IClone (dec_nat r)
   | SL [SA "gather"; r; nb; b] =>
       match dec_nat r, dec_nat nb, dec_list dec_nat b with Some r, Some nb, Some b => Some (IGather r nb b) | _, _, _ => None end
-  | SL [SA "unary"; r; f] => match dec_nat r, dec_pf f with Some r, Some f => Some (IUnary r f) | _, _ => None end
+  | SL [SA "unary"; r; f; pl; fe] =>
+      match dec_nat r, dec_pf f, dec_bool pl, dec_bool fe with
+      | Some r, Some f, Some pl, Some fe => Some (IUnary r f pl fe) | _, _, _, _ => None end
   | SL [SA "binary"; r; f; o] =>
       match dec_nat r, dec_bf f, dec_nat o with Some r, Some f, Some o => Some (IBinary r f o) | _, _, _ => None end
   | SL [SA "contiguous"; r] => option_map IContig (dec_nat r)
